@@ -39,7 +39,7 @@ def run(ctx):
             touches = False
             if m.f_trades in loc.path and loc.root[0] == "param":
                 ty = f.body.local_ty(loc.root[1])
-                if "OrderBook" in ty or "Market" in ty or "Env" in ty:
+                if "orderbook::OrderBook<" in ty or "Market<" in ty or "Env<" in ty:
                     touches = True
             if loc.root[0] in ("param", "local"):
                 ty = f.body.local_ty(loc.root[1])
